@@ -147,13 +147,26 @@ def run(ctx):
                     out.append(s)
             return out
 
-        prog = sa.renumber_arrays([["newarr", 0, 2, [0, 1]]] + strip(tower) + [["flush"]])
+        # completed operations on caller-chosen registers that are NOT the lowest free ones (both
+        # forms of the API) come first: the tower afterwards must still find every register
+        prefix = []
+        if i % 2 == 0:
+            for j in range(rng.randint(1, 3)):
+                prefix.append(["loop", j % 2, 2000 + j, 0, 2, 1,
+                               [["futadd", 0, ["c", 0], ["int", 1], None]], rng.randint(5, 15)])
+        prog = sa.renumber_arrays([["newarr", 0, 2, [0, 1]]] + prefix + strip(tower) + [["flush"]])
         steps, err, peaks = sc.run_sequence(repo, prog, assemble=False)
         stats["towers"] += 1
         stats["tower_failures"] += 1 if err else 0
         ctx.note_case(json.dumps(prog), True)
         cases.append(sc.acase_coq(fd, prog, steps, peaks))
         metas.append(dict(kind="tower", prog=prog, depth=depth, err=err))
+        # oracle (C14_statement_compiles): without EPR a tower of depth d needs at most d + 2 registers,
+        # whatever was completed before it
+        if err is not None and not seen[0] and depth + 2 <= 16:
+            ctx.violation(f"compilation failed ({err['exc']}) for {depth} open operations after completed operations "
+                          f"although {depth + 2} <= 16 registers suffice",
+                          dict(prog=prog, depth=depth, error=err), key=None)
     ctx.coverage["stream"] = dict(kinds=stats["kinds"], sequences=n_seq, operations=sum(stats["lengths"]),
                                   flush_every=sorted(set(stats["flush_every"])), peak_max=max(stats["peaks"] or [0]),
                                   towers=stats["towers"], towers_that_fail_in_both=stats["tower_failures"],
